@@ -1024,7 +1024,15 @@ impl Vec3A {
     pub fn rotate_towards(self, rhs: Self, max_angle: f32) -> Self {
         let angle_between = self.angle_between(rhs);
         // When `max_angle < 0`, rotate no further than `PI` radians away
-        let angle = max_angle.clamp(angle_between - core::f32::consts::PI, angle_between);
+        // Not `clamp`: it panics when the bounds are NaN (zero-length or non-finite input).
+        let min_angle = angle_between - core::f32::consts::PI;
+        let angle = if max_angle < min_angle {
+            min_angle
+        } else if max_angle > angle_between {
+            angle_between
+        } else {
+            max_angle
+        };
         let axis = self
             .cross(rhs)
             .try_normalize()
